@@ -273,4 +273,14 @@ def rawAst : Nat → List RawItem → List RawAst
   | i, .str s :: r => .str s :: rawAst i r
   | i, .param _ :: r => .param i :: rawAst (i + 1) r
 
+/-- numbering the parameters by DISTINCT expression text (NOT the code: `RawSQLMonad.getsql` counts occurrences, as
+    `parse_raw_sql` / `RawSQL.__init__` keep one code object and one value per occurrence); used to show that the
+    numbering theorem is sensitive -/
+def rawAstByText : List (List Char) → List RawItem → List RawAst
+  | _, [] => []
+  | seen, .str s :: r => .str s :: rawAstByText seen r
+  | seen, .param e :: r =>
+    if seen.contains e then .param (seen.idxOf e) :: rawAstByText seen r
+    else .param seen.length :: rawAstByText (seen ++ [e]) r
+
 end PonyVerif.Model.RawSql
